@@ -14,7 +14,7 @@ META = {
     "shards": {"quick": 8, "thorough": 4},
     "bounds": {
         "quick": "F-unit K=1..5 for all 8 types + type pairs, F-shape (incl. 0/1 constants), names resembling the companion/helper names, 30 random DAGs (<=12 gates, arity<=5); ALL 3^|inputs| ternary patterns and both binary values under X (inputs: Bool value + Bool X flag)",
-        "thorough": "same + 300 random DAGs + 40 DAGs with 24 gates, 8 hash seeds",
+        "thorough": "same + every circuit with 2 inputs, a constant and <=2 gates (4464) + 300 random DAGs + 40 DAGs with 24 gates, 8 hash seeds",
     },
     "outside": ["blackboxes and constant x (rejected by the function with ValueError)", "circuits outside the families"],
     "assumptions": ["sem.py Kleene table is the specification of gate-by-gate three-valued evaluation", "z3 sound"],
@@ -41,6 +41,7 @@ def all_cases(ctx):
     if not ctx.quick:
         import random
         cs += [(("rand24", ctx.seed, i), F.rand_dag(random.Random(f"c10-24-{ctx.seed}-{i}"), n_in=4, n_gates=24, name=f"r24_{i}")) for i in range(40)]
+        cs += F.f_small(2, consts=True)
     return cs
 
 
